@@ -584,6 +584,7 @@ fn slow_subscriber(wait_ms: u64) -> Bad {
 
 fn run(ctx: &Ctx, report: &mut Report) {
     crate::util::silence_panics();
+    super::live::run_live_family(ctx, report, "C12");
     if ctx.shard == 3 % ctx.of {
         let wait_ms = if ctx.quick() { 2500 } else { 12000 };
         report.evaluations += 1;
@@ -644,6 +645,9 @@ fn run(ctx: &Ctx, report: &mut Report) {
 }
 
 fn replay(case: &Value) -> anyhow::Result<(bool, String)> {
+    if let Some(r) = super::live::replay_live(case, "C12")? {
+        return Ok(r);
+    }
     if let Some(ms) = case.get("slow_subscriber_ms").and_then(|m| m.as_u64()) {
         return match catch(|| slow_subscriber(ms)) {
             Err(p) => Ok((true, format!("panic: {p}"))),
